@@ -107,7 +107,10 @@ impl Entries {
                     let kb = x.to_be_bytes();
                     let key = &kb[8 - *width as usize..];
                     val.clear();
-                    let mut j = 0u32;
+                    // the first (up to 8) value bytes identify the insert, so values of equal keys differ
+                    let m = (*vlen as usize).min(8);
+                    val.extend_from_slice(&kb[8 - m..]);
+                    let mut j = m as u32;
                     while (val.len() as u32) < *vlen {
                         val.push((x.wrapping_mul(31).wrapping_add(j as u64 * 7) & 0xff) as u8);
                         j += 1;
